@@ -95,6 +95,8 @@ pub fn gen_table(rng: &mut Rng) -> (TableSpec, Vec<PatT>) {
         }
         pats.push(PatT { name, prefix: format!("{}:", rng.pick(&["ev", "P", "log", "x"])), sep: rng.pick(&[" ", ";", "|", ","]).to_string(), groups, split: None });
     }
+    // sometimes two patterns share a name (two alternative shapes of the same record)
+    if pats.len() >= 2 && rng.chance(1, 10) { let n0 = pats[0].name.clone(); let last = pats.len() - 1; pats[last].name = n0; }
     let mut spec = TableSpec { name: "t".into(), patterns: pats.iter().map(|p| PatSpec { name: p.name.clone(), regex: pattern_regex(p), split: p.split.is_some() }).collect(), cols: vec![] };
     let ncols = 1 + rng.below(7);
     for ci in 0..ncols {
